@@ -60,7 +60,8 @@ def _replay_refine(args):
             ds.confidence_regions[par - 1].lower = mark.copy()
             ds.confidence_regions[par - 1].upper = mark + 2.0
             try:
-                kids = ds.refine_design(par - 1)
+                # both public entry points refine (refine_design is the wrapper, generate_child_designs the worker): mixed use of the two
+                kids = ds.refine_design(par - 1) if (len(hist) + par) % 3 else ds.generate_child_designs(par - 1)
             except Exception as e:
                 bad.append({"kind": "refine-exception", "dim": dim, "maxdepth": D, "history": hist[:], "error": repr(e)})
                 break
@@ -235,6 +236,25 @@ def record_ad(cfg):
 
     alg.problem = Proxy()
     T = {"tid": cfg["tid"], "dim": dim, "maxdepth": D, "steps": [], "cfg": cfg}
+    # FRAME check per phase: epsiloncovering() compares a candidate with the nodes that are active WHEN IT RUNS (S u P after this round's
+    # discards, VOAlgo!VogpNewP).  While it runs, the regions of all other nodes - discarded earlier or in this very round - are replaced by a
+    # far-away box that would cover everything, and put back afterwards.
+    inner_cov = getattr(alg, "epsiloncovering", None)
+    if callable(inner_cov):
+        def covering(*a, **k):
+            regs = alg.design_space.confidence_regions
+            live = set(alg.S) | set(alg.P)
+            saved = {}
+            for i, r in enumerate(regs):
+                if i not in live and hasattr(r, "lower"):
+                    saved[i] = (r.lower, r.upper)
+                    r.lower, r.upper = np.full(len(np.atleast_1d(r.lower)), 1000.0), np.full(len(np.atleast_1d(r.lower)), 1001.0)
+            try:
+                return inner_cov(*a, **k)
+            finally:
+                for i, (lo, up) in saved.items():
+                    regs[i].lower, regs[i].upper = lo, up
+        alg.epsiloncovering = covering
 
     def proj():
         return {"S": sorted(int(i) + 1 for i in alg.S), "P": sorted(int(i) + 1 for i in alg.P), "round": int(alg.round),
